@@ -121,6 +121,8 @@ def verify_function(reg: Registry, c: Contract) -> FnReport:
                     ex.oblige('post.noraise.%s@exit%d' % (exc, idx), stx, z3.Not(cond(pre)), 'post',
                               'normal return only when the raise condition of %s is false' % exc)
                 for n in h0.arr:
+                    if n == 'orig':
+                        continue        # ghost origin map: changes with every allocation, at fresh addresses only
                     if n not in c.modifies and not z3.eq(stx.h.arr[n], h0.arr[n]):
                         ex.oblige('frame.%s@exit%d' % (n, idx), stx, stx.h.arr[n] == h0.arr[n], 'frame')
             else:
@@ -143,7 +145,7 @@ def verify_function(reg: Registry, c: Contract) -> FnReport:
                             ex.oblige('post.exc.%s.%s@%s' % (x.exc, nm, x.site), stx, f, 'post.exc')
                     else:
                         for n in h0.arr:
-                            if not z3.eq(stx.h.arr[n], h0.arr[n]):
+                            if n != 'orig' and not z3.eq(stx.h.arr[n], h0.arr[n]):
                                 ex.oblige('post.exc.%s.unchanged.%s@%s' % (x.exc, n, x.site), stx,
                                           stx.h.arr[n] == h0.arr[n], 'post.exc')
         rep.obligations = ex.obligations
